@@ -25,7 +25,7 @@ EXC = ["svc", "undef", "irq", "fiq", "dabort", "smc"]
 
 def plan(tier):
     shards = []
-    depth = 3
+    depth = 3 if tier == "quick" else 4
     for ci in range(len(CONFIGS)):
         for ns in (0, 1):
             for m in (USR, FIQ, SVC, MON, HYP) if tier == "quick" else ALLMODES:
@@ -43,8 +43,8 @@ def plan(tier):
                 "views compared after every event; state = (mode, tag in every physical register cell); "
                 "(b) range predicate after every step of the instruction alphabets from 5 boundary register files" % depth,
         "bounds": {"depth": depth, "events": "mode switch (9) | set Rn current mode (n=0..14) | set_rmode(n in {0,8,12,13,14}, "
-                   "every mode) | set_spsr | take svc/undef/irq/fiq/dabort/smc", "third_event_menu": "registers reduced to "
-                   "set n in {0,8,13,14}, set_rmode n in {8,13,14}", "start_modes": "usr,fiq,svc,mon,hyp (thorough: all 9)"},
+                   "every mode) | set_spsr | take svc/undef/irq/fiq/dabort/smc", "deeper_event_menus": "second event: set n in {0,8,13,14}, "
+                   "set_rmode n in {8,13,14}; third: set n in {8,13,14}, no set_rmode; fourth (thorough): set n in {13,14}", "start_modes": "usr,fiq,svc,mon,hyp (thorough: all 9)"},
         "exhaustive": True,
         "assumptions": ["mode switches are made by assigning CPSR.M (the harness), exception entries through the public "
                         "take_*_exception API", "Hyp mode only with the virtualisation extension and SCR.NS=1; Monitor "
@@ -115,7 +115,7 @@ def bank(res, ci, ns, start, depth, tier):
     def events(st, d):
         # event menus shrink with depth (stated bound): full at the first event, reduced registers at the second,
         # no explicit-mode writes at the third
-        reg_menu = reg_menu_full if d == 0 else (reg_menu_deep if d == 1 else [8, 13, 14])
+        reg_menu = reg_menu_full if d == 0 else (reg_menu_deep if d == 1 else ([8, 13, 14] if d == 2 else [13, 14]))
         rm_menu = rm_menu_full if d == 0 else (rm_menu_deep if d == 1 else [])
         ev = [("mode", m) for m in modes if m != st.M]
         ev += [("set", n) for n in reg_menu]
